@@ -1,6 +1,7 @@
 package main
 
 import (
+	"context"
 	"encoding/json"
 	"errors"
 	"fmt"
@@ -381,7 +382,17 @@ func genC06(out *Out, r *Rng, tier string, n int, shard int) {
 			carried := m.name == "nonce" || m.name == "version" || m.name == "updatable" || m.name == "id-position" || m.name == "root-position"
 			emitBind(out, r, s, s.c, &cl, "claim-resigned", m.name, !carried, true)
 		}
+		// issuance histories: one option set serves several issuances (its own PRNG stream, derived from r by one draw)
+		hr := NewRng(r.U64())
+		emitIssuanceHistory(out, hr, s.is, s.c)
+		for h := 0; h < 2; h++ {
+			// further credentials of the same issuer (some cannot be turned into a claim at all: every call refuses)
+			bc := randCred(hr, hr.Chance(30))
+			bc.Issuer = s.is.did.String()
+			emitIssuanceHistory(out, hr, s.is, bc)
+		}
 		// dispatcher
+		merklize.SetDocumentLoader(s.c.loader())
 		vc, _ := s.c.W3C()
 		vc.Proof = verifiable.CredentialProofs{s.is.SignBJJ(s.claim)}
 		var why []string
@@ -427,6 +438,234 @@ func genC06(out *Out, r *Rng, tier string, n int, shard int) {
 }
 
 func init() { gens["C06"] = genC06 }
+
+// ---------- issuance histories ----------
+//
+// "For every credential and option set the claim produced at issuance passes this check, while any change to a merklized
+// statement makes verification fail" - also when the option set is not used for the first time. An issuer keeps ONE option
+// set (possibly carrying a tree of its own, merklize.WithMerkleTree: the documented way to keep a merklization in a store)
+// and issues several credentials with it: the credential of the round, single-site changes of it (all of them changes of a
+// bound statement), the same credential once more, an unrelated credential - in a random order, some of them more than
+// once, some calls being W3CCredential.Merklize (the merklization alone) instead of ToCoreClaim.
+//
+// A call may refuse (error): then no claim was issued and nothing is demanded. Whenever a call hands out a claim, the issuer
+// signs it and
+//   (A) the credential it was issued for must verify with it;
+//   (B) no credential of the history that differs from that one in a bound statement may verify with it.
+// Both are judged through VerifyProof alone, on freshly decoded credential objects.
+
+type histCred struct {
+	c       *ACred
+	variant string // "original" | a mutation's name | "unrelated"; equal variants = equal statements
+	loader  *mapLoader
+}
+
+func histDiffer(a, b histCred) bool {
+	if a.variant == b.variant {
+		return false
+	}
+	if a.variant == "unrelated" || b.variant == "unrelated" {
+		// the unrelated credential certainly differs in its issuance date, which is bound through the root only
+		return a.c.SerAttr == "" && b.c.SerAttr == ""
+	}
+	return true
+}
+
+func emitIssuanceHistory(out *Out, r *Rng, is *Issuer, base *ACred) {
+	ctx := context.Background()
+	hid := r.Intn(1 << 30)
+	var creds []histCred
+	add := func(c *ACred, variant string) {
+		// every credential of the history has its context document under a URL of its own (the URL is not a statement):
+		// one loader serves the whole history
+		c.TypeURL = fmt.Sprintf("https://ctx.example/hist-%d-%d.jsonld", hid, len(creds))
+		creds = append(creds, histCred{c: c, variant: variant})
+	}
+	add(cloneCred(base), "original")
+	want := 2 + r.Intn(3)
+	muts := credMutations()
+	for _, mi := range r.Perm(len(muts)) {
+		if len(creds) >= want {
+			break
+		}
+		m := muts[mi]
+		// changes of a bound statement only. (A changed issuer is one, but the synthetic issuer would be signing a credential
+		// that names somebody else: left to the single-change cases.)
+		if m.name == "none" || m.name == "issuer" || m.name == "unbound-credential-id" || (m.merklOnly && base.SerAttr != "") {
+			continue
+		}
+		c2 := cloneCred(base)
+		if !m.apply(c2, r) {
+			continue
+		}
+		add(c2, m.name)
+	}
+	if r.Chance(25) {
+		add(cloneCred(base), "original") // the same statements once more
+	}
+	if r.Chance(25) {
+		u := randCred(r, r.Chance(30))
+		u.Issuer = base.Issuer
+		t := base.Issuance.Add(time.Duration(2+r.Intn(100000)) * time.Second)
+		u.Issuance = &t
+		add(u, "unrelated")
+	}
+	all := &mapLoader{docs: map[string][]byte{vcCtxURL: []byte(vcCtx)}}
+	for i := range creds {
+		creds[i].loader = creds[i].c.loader()
+		for u, d := range creds[i].loader.docs {
+			all.docs[u] = d
+		}
+	}
+
+	// the option set
+	o := randOpts(r)
+	if o == nil {
+		o = &verifiable.CoreClaimOptions{}
+	}
+	if o.SubjectPosition == "elsewhere" {
+		o.SubjectPosition = ""
+	}
+	if o.MerklizedRootPosition == "Index" || base.SerAttr != "" {
+		o.MerklizedRootPosition = ""
+	}
+	mode := "shared-value"
+	switch x := r.Intn(100); {
+	case x < 45:
+		mode = "shared-value+tree"
+	case x < 70:
+		mode = "fresh-value+tree"
+	}
+	tree := mustTree()
+	mkOpts := func() []merklize.MerklizeOption {
+		mo := []merklize.MerklizeOption{merklize.WithDocumentLoader(all)}
+		if mode != "shared-value" {
+			mo = append(mo, merklize.WithMerkleTree(merklize.MerkleTreeSQLAdapter(tree)))
+			if r.Bool() {
+				mo[0], mo[1] = mo[1], mo[0]
+			}
+		}
+		return mo
+	}
+	o.MerklizerOpts = mkOpts()
+
+	// the calls: every credential at least once, in a random order, then a few more
+	var order []int
+	order = append(order, r.Perm(len(creds))...)
+	for k := r.Intn(3); k > 0; k-- {
+		order = append(order, r.Intn(len(creds)))
+	}
+
+	reg := &verifiable.CredentialStatusResolverRegistry{}
+	reg.Register(verifiable.SparseMerkleTreeProof, statusResolver{func(st verifiable.CredentialStatus) (verifiable.RevocationStatus, error) {
+		return is.RevStatus(st.RevocationNonce), nil
+	}})
+	verifyOn := func(j int, cl *core.Claim) error {
+		merklize.SetDocumentLoader(creds[j].loader)
+		vc, err := creds[j].c.W3C()
+		if err != nil {
+			panic(err)
+		}
+		vc.Proof = verifiable.CredentialProofs{is.SignBJJ(cl)}
+		k := 0
+		return runVerify(vc, verifiable.BJJSignatureProofType, resolverCfg{mode: "unpublished"}.resolver(&k), reg, creds[j].loader)
+	}
+
+	var why []string
+	var steps, results []any
+	issued, refused := 0, 0
+	for k, ci := range order {
+		hc := creds[ci]
+		vc, err := hc.c.W3C()
+		if err != nil {
+			panic(err)
+		}
+		// the default loader plays no part in the call (the option set names its own); it is the previous verification's
+		merklizeOnly := r.Chance(20)
+		oc := o
+		if mode == "fresh-value+tree" {
+			cp := *o
+			if r.Bool() {
+				cp.RevNonce, cp.Version = r.U64()>>uint(r.Intn(64)), uint32(r.Intn(1<<16))
+			}
+			cp.MerklizerOpts = mkOpts()
+			oc = &cp
+		}
+		st := J{"credential": ci, "variant": hc.variant, "call": "ToCoreClaim", "opts": optsJ(oc)}
+		if merklizeOnly {
+			st["call"] = "Merklize"
+			steps = append(steps, st)
+			_, err := guard(10*time.Second, func() (*merklize.Merklizer, error) { return vc.Merklize(ctx, oc.MerklizerOpts...) })
+			if cls := errClass(err); cls == "panic" || cls == "hang" {
+				why = append(why, fmt.Sprintf("call %d (Merklize, credential #%d): %v", k, ci, err))
+			}
+			if err != nil {
+				results = append(results, errJ(err))
+			} else {
+				results = append(results, okJ("merklized"))
+			}
+			continue
+		}
+		steps = append(steps, st)
+		cl, err := guard(10*time.Second, func() (*core.Claim, error) {
+			cl, err := vc.ToCoreClaim(ctx, oc)
+			if err == nil && cl == nil {
+				return nil, errNilNil
+			}
+			return cl, err
+		})
+		if err != nil {
+			refused++
+			results = append(results, errJ(err))
+			if cls := errClass(err); cls == "panic" || cls == "hang" || errors.Is(err, errNilNil) {
+				why = append(why, fmt.Sprintf("call %d (ToCoreClaim, credential #%d): %v", k, ci, err))
+			}
+			continue // no claim was issued
+		}
+		issued++
+		results = append(results, okJ(claimSlotsJ(cl)))
+		what := fmt.Sprintf("one option set (%s) used for %d calls in a row: the claim handed out by call %d for credential #%d (%s)", mode, len(order), k, ci, hc.variant)
+		if e := verifyOn(ci, cl); e != nil {
+			why = append(why, fmt.Sprintf("%s does not pass verification on that credential: %v", what, rootCause(e)))
+		}
+		for j := range creds {
+			if !histDiffer(creds[j], hc) {
+				continue
+			}
+			if e := verifyOn(j, cl); e == nil {
+				why = append(why, fmt.Sprintf("%s is accepted on credential #%d (%s), which states something else", what, j, creds[j].variant))
+			} else if errClass(e) != "err" {
+				why = append(why, fmt.Sprintf("%s, verified on credential #%d: %v", what, j, e))
+			}
+		}
+	}
+	var docs, variants []any
+	for _, hc := range creds {
+		docs = append(docs, string(hc.c.JSON()))
+		variants = append(variants, hc.variant)
+	}
+	out.Emit(Case{Op: "none", In: J{"history": "issuance", "mode": mode, "opts": optsJ(o), "credentials": docs, "variants": variants, "calls": steps},
+		Impl: results, Prop: propOf(why),
+		Tags: []string{"issuance-history", "mode:" + mode, fmt.Sprintf("serialized:%v", base.SerAttr != ""), fmt.Sprintf("hist-issued:%d", capInt(issued, 3)), fmt.Sprintf("hist-refused:%v", refused > 0)}, NT: true})
+}
+
+func capInt(x, m int) int {
+	if x > m {
+		return m
+	}
+	return x
+}
+
+// rootCause: the message without the stack pkg/errors attaches
+func rootCause(e error) string {
+	for {
+		u := errors.Unwrap(e)
+		if u == nil {
+			return e.Error()
+		}
+		e = u
+	}
+}
 
 // optsFromClaim: the options under which a credential yields a claim with this claim's positions, nonce, version and flags
 // (what the claim carries rather than the credential)
